@@ -1,0 +1,50 @@
+//go:build verif
+
+// Contracts for the single sequencer, read by /verif/bin/gocv. Comment-only.
+package single
+
+// the WAL key of a batch: hex of its content hash
+//@ pred WalKey(txs) := dskey(hex(BatchHash(seq(txs))))
+
+//@ func (bq *BatchQueue) AddBatch(ctx, batch) (err)
+//@   property C10
+//@   requires [wiring] bq.db != nil
+//@   observe put := call Put
+//@   modifies bq.queue, durable bq.db.kv[WalKey(batch.Transactions)], durable bq.db.kvHas[WalKey(batch.Transactions)], durable bq.db.size
+//@   ensures [append] err == nil ==> len(bq.queue) == old(len(bq.queue)) + 1 && bq.queue[len(bq.queue)-1].Transactions == batch.Transactions
+//@   ensures [prefix-kept] forall k :: 0 <= k && k < old(len(bq.queue)) ==> bq.queue[k].Transactions == old(bq.queue[k].Transactions)
+//@   ensures [reject-clean] err != nil ==> len(bq.queue) == old(len(bq.queue)) && bq.db.size == old(bq.db.size) && bq.db.kvHas[WalKey(batch.Transactions)] == old(bq.db.kvHas[WalKey(batch.Transactions)])
+//@   ensures [full] bq.maxQueueSize > 0 && old(len(bq.queue)) >= bq.maxQueueSize ==> isErr(err, ErrQueueFull) && put.count == 0
+//@   ensures [bound] bq.maxQueueSize > 0 && old(len(bq.queue)) <= bq.maxQueueSize ==> len(bq.queue) <= bq.maxQueueSize
+//@   ensures [wal-has] err == nil ==> bq.db.kvHas[WalKey(batch.Transactions)]
+//@   ensures [wal-one-record-per-batch] err == nil ==> bq.db.size == old(bq.db.size) + 1
+//@   crash_inv [write-ahead] len(bq.queue) == old(len(bq.queue))
+
+//@ func (bq *BatchQueue) Next(ctx) (b, err)
+//@   property C10
+//@   requires [wiring] bq.db != nil
+//@   observe del := call Delete
+//@   modifies bq.queue, durable bq.db.kvHas, durable bq.db.size
+//@   fresh b
+//@   ensures [fifo] old(len(bq.queue)) > 0 && err == nil ==> b != nil && b.Transactions == old(bq.queue[0].Transactions) && len(bq.queue) == old(len(bq.queue)) - 1
+//@   ensures [rest-shifted] old(len(bq.queue)) > 0 ==> forall k :: 0 <= k && k < len(bq.queue) ==> bq.queue[k].Transactions == old(bq.queue[k + 1].Transactions)
+//@   ensures [empty] old(len(bq.queue)) == 0 ==> err == nil && b != nil && len(b.Transactions) == 0 && del.count == 0
+//@   ensures [wal-delete-own-record] del ==> del.count == 1 && del.arg2.string == old(WalKey(bq.queue[0].Transactions))
+
+//@ func (c *Sequencer) SubmitBatchTxs(ctx, req) (resp, err)
+//@   property C10
+//@   requires [wiring] c.queue != nil && c.queue.db != nil && c.logger != nil
+//@   observe add := call AddBatch
+//@   modifies c.queue.queue, durable c.queue.db.kv, durable c.queue.db.kvHas, durable c.queue.db.size
+//@   ensures [foreign-id-rejected] val(c.Id) != val(req.Id) ==> isErr(err, ErrInvalidId) && add.count == 0
+//@   ensures [empty-ignored] val(c.Id) == val(req.Id) && (req.Batch == nil || len(req.Batch.Transactions) == 0) ==> err == nil && add.count == 0
+//@   ensures [accepted-iff-queued] val(c.Id) == val(req.Id) && req.Batch != nil && len(req.Batch.Transactions) > 0 ==> add.count == 1 && add.arg2.Transactions == req.Batch.Transactions && (err == nil <==> add.res0 == nil)
+//@   ensures [full-is-error] add && isErr(add.res0, ErrQueueFull) ==> isErr(err, ErrQueueFull)
+
+//@ func (c *Sequencer) GetNextBatch(ctx, req) (resp, err)
+//@   property C10
+//@   requires [wiring] c.queue != nil && c.queue.db != nil
+//@   observe nx := call Next
+//@   modifies c.queue.queue, durable c.queue.db.kvHas, durable c.queue.db.size
+//@   ensures [foreign-id-rejected] val(c.Id) != val(req.Id) ==> isErr(err, ErrInvalidId) && nx.count == 0
+//@   ensures [hands-out-next] val(c.Id) == val(req.Id) && err == nil ==> nx.count == 1 && resp != nil && resp.Batch == nx.res0
